@@ -179,6 +179,46 @@ def default_case(cls, kind, target, rng):
             "prefill": False, "edits": [{"path": [], "op": "meta", "val": {"edited": 1}}, {"path": [], "op": "attr", "attr": "name", "val": "renamed"}]}
 
 
+def cell_mask_case(rng, cls, target, variant, rich=False):
+    """CellObject.copy(mask=..., cell_mask=...): the cell mask alone, the vertex mask alone, both (the cell mask then selects
+    among the cells whose vertices are all kept), or a cell mask that keeps every cell."""
+    src = obj_spec(rng, cls, rich=rich)
+    n = src["n"] = rng.range(5, 7)
+    if cls in S.SURFACE_LIKE:
+        src["cells"] = [[i, i + 1, i + 2] for i in range(n - 2)]
+    else:
+        src["cells"] = [[i, i + 1] for i in range(n - 1)]
+    if cls in SURVEYS:
+        src.pop("meta", None)
+    if rich:
+        finish_pgs(rng, src)
+    else:
+        src["data"] = [{"kind": "FloatData", "assoc": "VERTEX", "seed": 1 + rng.below(50), "name": "fv", "meta": None},
+                       {"kind": "FloatData", "assoc": "CELL", "seed": 3 + rng.below(50), "name": "fc", "meta": None},
+                       {"kind": "IntegerData", "assoc": "CELL", "seed": 5 + rng.below(50), "name": "ic", "meta": None},
+                       {"kind": "TextData", "assoc": "OBJECT", "seed": 4, "name": "tx", "meta": None}]
+        src["pgs"] = [{"name": "pgC", "members": [1, 2]}]
+    cells = src["cells"]
+    mask = cmask = None
+    if variant in ("vertex", "both"):
+        mask = [1] * n
+        mask[rng.choice([0, 0, n - 1, n - 1, rng.below(n)])] = 0
+    kept = [all((mask or [1] * n)[i] for i in c) for c in cells]
+    if variant == "all":
+        cmask = [1] * len(cells)
+    elif variant in ("cell", "both"):
+        idx = [i for i, k in enumerate(kept) if k]
+        cmask = [0] * len(cells)
+        for i in idx:
+            cmask[i] = 1 if rng.chance(60) else 0
+        if idx and not any(cmask):
+            cmask[rng.choice(idx)] = 1
+        if all(cmask) and len(idx) > 1:
+            cmask[rng.choice(idx)] = 0
+    opts = {"copy_children": True, "clear_cache": rich and rng.chance(15), "mask": mask, "cell_mask": cmask, "omit_meta": False, "name": None}
+    return {"src": src, "target": target, "opts": opts, "prefill": False, "edits": gen_edits(rng, src, opts) if rich else []}
+
+
 def gen_edits(rng, src, opts):
     """edits addressed by child-index paths below the copy root (modelled ops only)."""
     edits = []
@@ -266,6 +306,19 @@ def generate(rng, tier):
                 opts["mask"] = [1 if rng.chance(60) else 0 for _ in range(src["n"])]
         cases.append({"src": src, "target": target, "opts": opts, "prefill": target.startswith("ws") and rng.chance(30),
                       "edits": gen_edits(rng, src, opts)})
+    # the cell_mask keyword of CellObject.copy: every class that has cells, same and other workspace, cell mask alone / vertex mask
+    # alone / both (no mask at all: the per-class default cases above); then random sources and options
+    rc = rng.fork(0xCE11)
+    for cls in S.CURVE_LIKE + S.SURFACE_LIKE:
+        for target in ("same", "ws"):
+            for variant in ("cell", "both"):
+                cases.append(cell_mask_case(rc, cls, target, variant))
+        if cls not in SURVEYS or tier != "quick":
+            cases.append(cell_mask_case(rc, cls, rc.choice(["same", "ws"]), "vertex"))
+    for _ in range(12 if tier == "quick" else 1500):
+        cls = rc.weighted([("Curve", 40), ("Surface", 40), ("AirborneMagnetics", 10), ("NeighbourhoodSurface", 10)])
+        cases.append(cell_mask_case(rc, cls, rc.weighted([("same", 35), ("group", 20), ("ws", 30), ("wsgroup", 15)]),
+                                    rc.weighted([("cell", 45), ("both", 35), ("all", 10), ("vertex", 10)]), rich=True))
     return cases
 
 
@@ -620,6 +673,8 @@ def drive_one(case, work):
         kw["clear_cache"] = opts["clear_cache"]
         if opts["mask"] is not None:
             kw["mask"] = np.array(opts["mask"], dtype=bool)
+        if opts.get("cell_mask") is not None:
+            kw["cell_mask"] = np.array(opts["cell_mask"], dtype=bool)
         if opts["omit_meta"]:
             kw["omit_list"] = ["_metadata"]
         if opts["name"] is not None:
@@ -938,10 +993,11 @@ def _case_term_general(case, obs):
     over = []
     if o["name"] is not None:
         over.append((tok("name"), tok(o["name"])))
-    opts = "(Build_opts %s %s %s %s %s)" % (
+    opts = "(Build_opts %s %s %s %s %s %s)" % (
         cbool(o["copy_children"] if "pick" not in case["src"] else True),
         "None" if o["mask"] is None else "(Some %s)" % clist(cbool(bool(b)) for b in o["mask"]),
-        cbool(o["omit_meta"]), _zz(over), cbool(o["clear_cache"] and FLAGS["clear_cache_keeps_parts"]))
+        cbool(o["omit_meta"]), _zz(over), cbool(o["clear_cache"] and FLAGS["clear_cache_keeps_parts"]),
+        "None" if o.get("cell_mask") is None else "(Some %s)" % clist(cbool(bool(b)) for b in o["cell_mask"]))
     world = "(Build_world %s %s %s 200000%%N)" % (wa, wb, clist("(%d%%N,%s)" % (l, _zz(d)) for l, d in heap.cells))
     dummy = "(C 0 CNew [] [] [] None None [] [])"
     if obs["error"] is None and "copy" not in obs:
@@ -1083,26 +1139,31 @@ def _cmp_nodes(src, cp, mapping, case, path, fails, masked, top):
         fails.append({"key": key, "what": f"{path}: entity type {d}: source {str((st or {}).get(d[1:]))[:40]} copy {str((ct or {}).get(d[1:]))[:40]}"})
 
 
-def _mask_expect(src, cp, mask, fails, path):
-    """masked copy of an object: vertices/cells/data from the property text (coordinates, not indices)."""
+def _mask_expect(src, cp, mask, fails, path, cell_mask=None):
+    """masked copy of an object: vertices/cells/data from the property text (coordinates, not indices).  A vertex mask keeps the
+    selected vertices and the cells all of whose vertices are kept; a cell mask selects the cells itself (every vertex stays when
+    no vertex mask is given) and CELL data follow it."""
     cls = src["cls"]
     geo = GEO.get(cls, "GPlain")
     sv, cv = src["attrs"].get("vertices"), cp["attrs"].get("vertices")
     if geo in ("GPoints", "GCells", "GCurve") and isinstance(sv, list):
-        keep = [bool(b) for b in mask]
+        keep = [bool(b) for b in mask] if mask is not None else [True] * len(sv)
         exp_v = [r for r, k in zip(sv, keep) if k]
         if _norm(cv or []) != _norm(exp_v):
             fails.append({"key": "masked-vertices", "what": f"{path}: kept vertices differ"})
         if geo in ("GCells", "GCurve"):
             sc, cc = src["attrs"].get("cells") or [], cp["attrs"].get("cells") or []
-            exp_cells = [[sv[i] for i in c] for c in sc if all(keep[i] for i in c)]
+            cell_keep = [all(keep[i] for i in c) for c in sc]
+            if cell_mask is not None and len(cell_mask) == len(sc):
+                cell_keep = [bool(b) for b in cell_mask]
+            exp_cells = [[sv[i] for i in c] for c, k in zip(sc, cell_keep) if k]
             try:
                 got_cells = [[(cv or [])[i] for i in c] for c in cc]
             except IndexError:
                 got_cells = "out-of-range"
             if _norm(got_cells) != _norm(exp_cells):
-                fails.append({"key": "masked-cells", "what": f"{path}: cells of the masked copy do not join the coordinates of the kept source cells"})
-            cell_keep = [all(keep[i] for i in c) for c in sc]
+                fails.append({"key": "masked-cells", "what": f"{path}: cells of the masked copy do not join the coordinates of the kept source cells"
+                                                              f" ({len(cc)} cells, {len(exp_cells)} expected)"})
         else:
             cell_keep = None
         for a, b in zip(src.get("children", []), cp.get("children", [])):
@@ -1134,7 +1195,7 @@ def _mask_expect(src, cp, mask, fails, path):
                         break
 
 
-def _walk_cmp(src, cp, mapping, case, path, fails, mask, top=True):
+def _walk_cmp(src, cp, mapping, case, path, fails, mask, top=True, cell_mask=None):
     if top and mask is not None and _kind_of(src["cls"]) == "KData":
         # Data.copy(mask=...): "array of bool defining the values to keep" - the others are dropped or become no-data
         _cmp_nodes(src, cp, mapping, case, path, fails, True, top)
@@ -1151,9 +1212,13 @@ def _walk_cmp(src, cp, mapping, case, path, fails, mask, top=True):
                 fails.append({"key": "masked-values", "what": f"masked data copy holds {bv}, source {av}, mask {mask}"})
         return
     masked = mask is not None and _kind_of(src["cls"]) == "KObject" and GEO.get(src["cls"]) in ("GPoints", "GCells", "GCurve", "GGrid")
+    if top and cell_mask is not None and _kind_of(src["cls"]) == "KObject" and GEO.get(src["cls"]) in ("GCells", "GCurve"):
+        masked = True
+    else:
+        cell_mask = None
     _cmp_nodes(src, cp, mapping, case, path, fails, masked, top)
     if masked:
-        _mask_expect(src, cp, mask, fails, path)
+        _mask_expect(src, cp, mask, fails, path, cell_mask)
     sk, ck = src.get("children", []), cp.get("children", [])
     if not case["opts"]["copy_children"] and top and "pick" not in case["src"]:
         if ck or cp.get("pgs"):
@@ -1325,7 +1390,7 @@ def oracle(case, obs):
     elif obs["error"] is None:
         cp = obs["copy"]
         mapping = _uid_map(obs["src_reloaded"], cp, {})
-        _walk_cmp(obs["src_reloaded"], cp, mapping, case, "", fails, mask)
+        _walk_cmp(obs["src_reloaded"], cp, mapping, case, "", fails, mask, True, case["opts"].get("cell_mask"))
         if not obs["copy_parent_is_target"]:
             fails.append({"key": "copy-parent", "what": "the copy is not a child of the requested parent"})
         if not obs["uids_unique"]:
@@ -1369,7 +1434,7 @@ def nontrivial(case, obs):
     if "dh" in case:
         return True
     s = case["src"]
-    return bool(s.get("children") or s.get("data") or case["opts"]["mask"] or case.get("prefill") or case.get("edits"))
+    return bool(s.get("children") or s.get("data") or case["opts"]["mask"] or case["opts"].get("cell_mask") or case.get("prefill") or case.get("edits"))
 
 
 def histogram(cases, obs):
@@ -1388,6 +1453,7 @@ def histogram(cases, obs):
         h["target"][c["target"]] = h["target"].get(c["target"], 0) + 1
         op = c["opts"]
         h["mask"] += op["mask"] is not None
+        h["cell_mask"] = h.get("cell_mask", 0) + (op.get("cell_mask") is not None)
         h["no_children"] += not op["copy_children"]
         h["omit_meta"] += bool(op["omit_meta"])
         h["rename"] += op["name"] is not None
